@@ -461,7 +461,7 @@ def strip_search(sr):
 
 
 def execute(pops, exe, tag, want_model=True):
-    d = os.path.join(BUILD, "run", "c02")
+    d = os.path.join(BUILD, "run", "c02", str(os.getpid()))  # per process: concurrent checks must not share files
     os.makedirs(d, exist_ok=True)
     cf = os.path.join(d, "cases_%s.json" % tag)
     json.dump({"base": BASE, "pops": [dict(p, searches=[strip_search(s) for s in p["searches"]]) for p in pops]}, open(cf, "w"))
@@ -469,7 +469,7 @@ def execute(pops, exe, tag, want_model=True):
     for p in (iout, mi, mout):
         if os.path.exists(p):
             os.remove(p)
-    ov = go_overlay({"internal/index/zz_verif_c02_test.go": os.path.join(ROOT, "harness/c02/zz_verif_c02_test.go")}, "c02")
+    ov = go_overlay({"internal/index/zz_verif_c02_test.go": os.path.join(ROOT, "harness/c02/zz_verif_c02_test.go")}, "c02_%d" % os.getpid())
     env = {"VERIF_CASES": cf, "VERIF_OUT": iout, "TZ": "UTC"}
     if want_model and exe:
         env["VERIF_MODEL"] = mi
@@ -809,4 +809,10 @@ def main(tier, seed, replay=None):
                     "limit = 0 implies skip = 0 (the manager computes skip = page * limit)",
                     "tag graph acyclic (C11)", "no grouping, sub-queries or data filters in the generated queries"],
                    time.time() - t0, nviol)
+    if not nviol:  # keep the run files of a failing run for inspection
+        shutil.rmtree(os.path.join(BUILD, "run", "c02", str(os.getpid())), ignore_errors=True)
+        try:
+            os.remove(os.path.join(BUILD, "overlay", "c02_%d.json" % os.getpid()))
+        except OSError:
+            pass
     return 1 if nviol else 0
